@@ -27,6 +27,8 @@ OUT_OF_SCOPE_UNITS = {"binary_": "branch-and-bound prototype (ILLmip_bfs); integ
 def arr_info(t, alias):
     p = apath(t)
     fl = fields_of(p[2])
+    if fl and p[0] == "l" and ("&rec", p[1]) in alias:
+        fl = list(alias[("&rec", p[1])]) + list(fl)      # S = &qslp->sos; S->matind: the embedded record the local points to
     if fl:
         c = _suffix_lookup(ARRAYS, fl[-1])
         if c is None:
@@ -54,6 +56,23 @@ def analyse(prog, f, param_classes=None, callargs=None):
             if "*" in (f.ltypes.get(n, "") or ""):
                 cand[n].add(arr_info(rhs, {}))
     alias = {n: list(v)[0] for n, v in cand.items() if len(v) == 1 and list(v)[0][2] is not None}
+    # locals that point to a record embedded in another one (A = &qslp->A, S = &qslp->sos): the field path of the embedded record
+    recs = collections.defaultdict(set)
+    for b, i, e in f.elements():
+        pairs = []
+        if e[0] == "A" and e[1][1] == "=" and is_var(e[1][2], kind="l"):
+            pairs.append((strip(e[1][2])[2], e[1][3]))
+        elif e[0] == "D":
+            pairs += [(n, init) for n, init in e[1] if init is not None]
+        for n, rhs in pairs:
+            r0 = strip(rhs)
+            if isinstance(r0, list) and r0 and r0[0] == "u" and r0[1] == "&":
+                recs[n].add(tuple(fields_of(apath(r0[2])[2])))
+            elif "*" in (f.ltypes.get(n, "") or "") and const_of(rhs) != 0:
+                recs[n].add(None)
+    for n, v in recs.items():
+        if len(v) == 1 and list(v)[0]:
+            alias[("&rec", n)] = list(v)[0]
     # local arrays allocated with a dimension as size are indexed by that dimension's space
     dimlocals = collections.defaultdict(set)
     for b, i, e in f.elements():
